@@ -168,7 +168,7 @@ theorem reach3_tinv (ops : List Op3) (hlen : ops.length < 2 ^ 16)
     the specification only) fails: the model panics with the world unchanged, and the whole machine
     state is unchanged.  This includes a dead handle, both lists empty, a component to remove that
     the entity lacks, a component to add that it has, a component named twice, and a dead target
-    named through a typed path. -/
+    named through any path (`Unsafe.Exchange` too, since the repair of its relation validation). -/
 theorem xchg_rejected (ops : List Op3) (hlen : ops.length + 1 < 2 ^ 16)
     (p : Path) (e : Ent) (add : List Comp) (vals : Comps)
     (rem : List Comp) (rels : Rels)
